@@ -1,4 +1,369 @@
-import GeomV.C16.Model
-import GeomV.C16.Spec
+import GeomV.C16.Lemmas
+/-!
+# C16 — property theorems
+
+Property: "Records written through the shapefile Encoder (struct-based or field-based) and read back through
+the Decoder come back in the same order and number, with bit-identical coordinates: points, multi-points,
+(multi-)line strings part by part, polygons ring by ring with vertex order preserved and unclosed rings
+closed, boxes as five-vertex rectangles; integer attributes are equal, NUL-free strings up to 50 bytes are
+equal and floats agree to 10 decimal places, matched to struct fields by tag or name case-insensitively."
+
+All theorems are about the model (`Model.lean`, tied to the Go source by the correspondence run) and
+quantify over all coordinate types, geometries, part/ring counts, record sequences and attribute values.
+The `.shp/.shx/.dbf` container of go-shp is the model's `FileM` (an ordered list of rows): PARTIAL with
+respect to go-shp's byte layout, which is exercised by the correspondence run only.
+-/
+set_option linter.unusedSimpArgs false
+set_option linter.unusedVariables false
 namespace GeomV.C16
+open GeomV
+
+/-! ## geometry -/
+
+/-- **getStartEnd_partition** (clause "(multi-)line strings part by part, polygons ring by ring"):
+the `Parts` array that go-shp's `NewPolyLine` builds (running offsets) together with `getStartEnd` cuts the
+flattened point array back into exactly the original parts — for any number of parts, empty parts
+(also leading, trailing and consecutive ones) included; no index fault occurs. -/
+theorem getStartEnd_partition {α : Type} (ps : List (List (Pt α))) :
+    cutParts (newPolyLine ps).1 (newPolyLine ps).2 = .ok ps :=
+  cutParts_newPolyLine ps
+
+/-- **C16_geom** (clauses "bit-identical coordinates: points, multi-points, (multi-)line strings part by
+part, polygons ring by ring with vertex order preserved and unclosed rings closed, boxes as five-vertex
+rectangles"): for every geometry `g` of a supported type, converting to a go-shp shape and back yields
+exactly `Spec.normal g` — coordinates are carried as values of an arbitrary type `α`, untouched, so
+"bit-identical" holds for every bit pattern (NaN payloads, signed zeros). -/
+theorem C16_geom {α : Type} (eq : Pt α → Pt α → Bool) (g n : Geom α) (h : Spec.normal eq g = some n) :
+    (geom2Shp eq g >>= shp2Geom) = .ok n := by
+  cases g with
+  | point p => simp [Spec.normal] at h; subst h; rfl
+  | multiPoint ps => simp [Spec.normal] at h; subst h; rfl
+  | lineString l =>
+    simp [Spec.normal] at h; subst h
+    have := cutParts_newPolyLine [l]
+    simp only [geom2Shp, newPolyLine, bind, Except.bind, shp2Geom, this, Functor.map, Except.map]
+  | multiLineString ls =>
+    simp [Spec.normal] at h; subst h
+    have := cutParts_newPolyLine ls
+    simp only [geom2Shp, newPolyLine, bind, Except.bind, shp2Geom, this, Functor.map, Except.map]
+  | polygon rs =>
+    simp [Spec.normal] at h; subst h
+    have := cutParts_newPolyLine (rs.map (closeRing eq))
+    have hc : rs.map (closeRing eq) = rs.map (Spec.closed eq) :=
+      List.map_congr_left (fun r _ => closeRing_eq_closed eq r)
+    rw [hc] at this
+    simp only [geom2Shp, newPolyLine, bind, Except.bind, shp2Geom, this, Functor.map, Except.map, hc]
+  | multiPolygon ps => simp [Spec.normal] at h
+  | collection gs => simp [Spec.normal] at h
+  | bounds mn mx =>
+    simp [Spec.normal] at h; subst h
+    have := cutParts_newPolyLine [rect mn mx]
+    simp only [rect] at this
+    simp only [geom2Shp, newPolyLine, bind, Except.bind, shp2Geom, this, Functor.map, Except.map, rect]
+  | nil => simp [Spec.normal] at h; subst h; rfl
+
+/-- unsupported geometry types are rejected by the encoder, not mangled -/
+theorem C16_geom_unsupported {α : Type} (eq : Pt α → Pt α → Bool) (g : Geom α) (h : Spec.normal eq g = none) :
+    geom2Shp eq g = .error .unsupported := by
+  cases g <;> simp [Spec.normal] at h <;> rfl
+
+/-- non-vacuity: an unclosed ring followed by an empty ring and a closed ring (integers as coordinates) -/
+example : (geom2Shp (fun (a b : Pt Nat) => a == b) (.polygon [[⟨0,0⟩,⟨1,0⟩,⟨1,1⟩], [], [⟨5,5⟩,⟨6,5⟩,⟨5,5⟩]]) >>= shp2Geom)
+    = .ok (.polygon [[⟨0,0⟩,⟨1,0⟩,⟨1,1⟩,⟨0,0⟩], [], [⟨5,5⟩,⟨6,5⟩,⟨5,5⟩]]) :=
+  C16_geom _ _ _ (by simp [Spec.normal, Spec.closed, Spec.ringClosed])
+
+/-! ## attribute cells -/
+
+/-- **C16_int** (clause "integer attributes are equal"): for every Go `int` `i` whose `Itoa` rendering fits
+the column (`size` characters; 10 for `NewEncoder`), `WriteAttribute` stores it, the struct decoder
+(`ReadAttribute`, `Trim("\x00 ")`, `ParseInt`) returns exactly `i`, and the field-based decoder
+(`DecodeRowFields`) returns exactly the text `Itoa(i)`. -/
+theorem C16_int (f : Field) (i : Int) (h1 : -(2 ^ 63 : Int) ≤ i) (h2 : i < 2 ^ 63)
+    (hfit : (fmtInt i).length ≤ f.size) :
+    writeAttr f (.int i) = some (fmtInt i) ∧
+    parseInt (numText (cellOf f.size (fmtInt i))) = some i ∧
+    strOf (cellOf f.size (fmtInt i)) = fmtInt i := by
+  have hs := fmtInt_solid i
+  have hne := fmtInt_ne_nil i
+  refine ⟨?_, ?_, ?_⟩
+  · simp only [writeAttr, render]
+    have : ¬ (fmtInt i).length > f.size := by omega
+    simp [this]
+  · rw [numText_cellOf f.size _ hne (fun x hx => hs x (mem_of_head? hx)) (fun x hx => hs x (mem_of_getLast? hx))]
+    exact parseInt_fmtInt i h1 h2
+  · apply strOf_cellOf f.size _ hne
+    · intro h; exact (hs 32 (mem_of_head? h)).1 rfl
+    · intro h; exact (hs 0 (mem_of_head? h)).2 rfl
+    · intro h; exact (hs 0 (mem_of_getLast? h)).2 rfl
+    · intro h; exact absurd rfl (hs 32 (mem_of_getLast? h)).1
+
+/-- the width condition of `C16_int` in numbers: `|i|` fitting 10 characters -/
+theorem C16_int_width (i : Int) (h1 : -999999999 ≤ i) (h2 : i ≤ 9999999999) : (fmtInt i).length ≤ 10 := by
+  unfold fmtInt
+  split
+  · have : i.natAbs < 10 ^ 9 := by omega
+    have := natDigits_length_le 8 _ this
+    simp; omega
+  · have : i.natAbs < 10 ^ 10 := by omega
+    exact natDigits_length_le 9 _ this
+
+/-- non-vacuity and sharpness: ±999 999 999 and the largest 10-digit value are stored; an 11-character
+value is refused -/
+example : writeAttr ⟨[], 78, 10, 0⟩ (.int (-999999999)) = some (fmtInt (-999999999)) ∧
+    writeAttr ⟨[], 78, 10, 0⟩ (.int 9999999999) = some (fmtInt 9999999999) ∧
+    writeAttr ⟨[], 78, 10, 0⟩ (.int (-1234567890)) = none ∧ writeAttr ⟨[], 78, 10, 0⟩ (.int 10000000000) = none := by
+  decide +kernel
+
+/-- the exact condition on a string for surviving a cell of `size` bytes -/
+def StrOK (size : Nat) (s : Bytes) : Prop :=
+  s = [] ∨ (s.head? ≠ some 32 ∧ s.head? ≠ some 0 ∧ s.getLast? ≠ some 0 ∧ (s.getLast? = some 32 → s.length < size))
+
+/-- **C16_string** (clause "NUL-free strings up to 50 bytes are equal"): a string of at most `size` bytes
+(50 for `NewEncoder`) is stored, and is read back unchanged by both decoders PROVIDED it does not start
+with a blank or NUL, does not end with NUL, and does not end with a blank when it fills the cell
+completely — the condition `Trim` forces. Interior NULs and blanks, and trailing blanks of shorter
+strings, survive. The condition is exact clause by clause: see the witnesses below
+(`C16_string_violations`), which is why the statement as written ("NUL-free strings up to 50 bytes are
+equal") is recorded as a known finding for leading blanks and full-width trailing blanks. -/
+theorem C16_string (f : Field) (s : Bytes) (hlen : s.length ≤ f.size) (hok : StrOK f.size s) :
+    writeAttr f (.str s) = some s ∧ strOf (cellOf f.size s) = s := by
+  refine ⟨?_, ?_⟩
+  · simp only [writeAttr, render]
+    have : ¬ s.length > f.size := by omega
+    simp [this]
+  · by_cases hne : s = []
+    · subst hne; exact strOf_blank f.size
+    · rcases hok with h | ⟨a, b, c, d⟩
+      · exact absurd h hne
+      · exact strOf_cellOf f.size s hne a b c d
+
+/-- the clauses of `StrOK` cannot be dropped (model-level negation of the statement as written, concrete
+witnesses in a 5-byte column): a leading blank is lost, a blank at the very end of a full cell is lost,
+leading/trailing NULs are lost; a trailing blank of a shorter string and interior NUL/blank survive. -/
+theorem C16_string_violations :
+    strOf (cellOf 5 [32, 97]) = [97] ∧                          -- " a"      ↦ "a"
+    strOf (cellOf 5 [97, 98, 99, 100, 32]) = [97, 98, 99, 100] ∧  -- "abcd "   ↦ "abcd"   (full width)
+    strOf (cellOf 5 [97, 32]) = [97, 32] ∧                       -- "a "      ↦ "a "     (shorter: kept)
+    strOf (cellOf 5 [0, 97]) = [97] ∧ strOf (cellOf 5 [97, 0]) = [97] ∧
+    strOf (cellOf 5 [97, 0, 32, 98]) = [97, 0, 32, 98] ∧
+    strOf (cellOf 5 [32, 32]) = [] := by
+  decide
+
+/-! ## field matching -/
+
+theorem IsLast_unique {keys : List Bytes} {k : Bytes} {c j : Nat} (hc : IsLast keys k c) (hj : IsLast keys k j) : c = j := by
+  rcases Nat.lt_trichotomy c j with h | h | h
+  · exact absurd hj.1 (hc.2 j h)
+  · exact h
+  · exact absurd hc.1 (hj.2 c h)
+
+/-- **C16_match** (clause "matched to struct fields by tag or name case-insensitively", `DecodeRow`):
+with `keys` the lower-cased, trimmed column names of the file in column order, a struct field receives
+column `c` iff `c` is the (last) column whose key equals the field's lower-cased `shp` tag, or — when no
+column carries the tag — the (last) column whose key equals the lower-cased field name. A geometry field
+never takes part (it is tested first in `decodeField`). -/
+theorem C16_match (keys : List Bytes) (sf : SField) (c : Nat) :
+    matchField keys sf = some c ↔
+      IsLast keys (lower sf.tag) c ∨
+      ((∀ j : Nat, keys[j]? ≠ some (lower sf.tag)) ∧ IsLast keys (lower sf.name) c) := by
+  unfold matchField
+  cases h : lastIdx keys (lower sf.tag) with
+  | some j =>
+    have hj := (lastIdx_spec _ _ _).mp h
+    simp only [Option.some.injEq]
+    constructor
+    · rintro rfl; exact Or.inl hj
+    · rintro (hc | ⟨hno, _⟩)
+      · exact IsLast_unique hj hc
+      · exact absurd hj.1 (hno j)
+  | none =>
+    have hno := (lastIdx_none _ _).mp h
+    simp only
+    rw [lastIdx_spec]
+    constructor
+    · intro hc; exact Or.inr ⟨hno, hc⟩
+    · rintro (hc | ⟨_, hc⟩)
+      · exact absurd hc.1 (hno c)
+      · exact hc
+
+/-- a struct field stays untouched iff neither its tag nor its name is a column key -/
+theorem C16_match_none (keys : List Bytes) (sf : SField) :
+    matchField keys sf = none ↔
+      (∀ j : Nat, keys[j]? ≠ some (lower sf.tag)) ∧ (∀ j : Nat, keys[j]? ≠ some (lower sf.name)) := by
+  unfold matchField
+  cases h : lastIdx keys (lower sf.tag) with
+  | some j =>
+    have hj := (lastIdx_spec _ _ _).mp h
+    simp only [reduceCtorEq, false_iff, not_and]
+    intro hno; exact absurd hj.1 (hno j)
+  | none =>
+    have hno := (lastIdx_none _ _).mp h
+    simp only
+    rw [lastIdx_none]
+    exact ⟨fun h2 => ⟨hno, h2⟩, fun h2 => h2.2⟩
+
+/-- **C16_match_fields** (same clause, `DecodeRowFields`): a requested name is served from the (last)
+column whose key equals the lower-cased name, and is an error iff there is none -/
+theorem C16_match_fields (keys : List Bytes) (n : Bytes) :
+    (∀ c, lastIdx keys (lower n) = some c ↔ IsLast keys (lower n) c) ∧
+    (lastIdx keys (lower n) = none ↔ ∀ j : Nat, keys[j]? ≠ some (lower n)) :=
+  ⟨fun c => lastIdx_spec _ _ c, lastIdx_none _ _⟩
+
+/-- non-vacuity: tag beats name, matching is case-insensitive, the last of two equal keys wins -/
+example :
+    let keys := fileKeys [⟨name11 [97], 78, 10, 0⟩, ⟨name11 [66], 78, 10, 0⟩, ⟨name11 [65, 32], 78, 10, 0⟩]   -- "a", "B", "A "
+    matchField keys ⟨[66], [65], .int⟩ = some 2 ∧       -- field B with tag "A": the tag decides, last "a" column
+    matchField keys ⟨[66], [], .int⟩ = some 1 ∧         -- field B without tag
+    matchField keys ⟨[67], [], .int⟩ = none := by
+  decide
+
+/-! ## order and number of records -/
+
+section order
+variable {α : Type}
+
+theorem blankRow_length (fs : List Field) : (blankRow fs).length = fs.length := by simp [blankRow]
+
+theorem writeLenient_length : ∀ (fs : List Field) (vs : List Val), (writeLenient fs vs).length = fs.length
+  | [], vs => by cases vs <;> simp [writeLenient, blankRow]
+  | f :: fs, [] => by simp [writeLenient, blankRow]
+  | f :: fs, v :: vs => by simp [writeLenient, writeLenient_length fs vs]
+
+theorem writeStrict_length : ∀ (fs : List Field) (vs : List Val), (writeStrict fs vs).1.length = fs.length
+  | [], vs => by cases vs <;> simp [writeStrict, blankRow]
+  | f :: fs, [] => by simp [writeStrict, blankRow]
+  | f :: fs, v :: vs => by
+    simp only [writeStrict]
+    split
+    · simp [blankRow]
+    · simp [writeStrict_length fs vs]
+
+/-- the rows after a sequence of `EncodeFields` calls: one row per call, in call order -/
+theorem writeAllF_rows (eq : Pt α → Pt α → Bool) (fields : List Field) (S : Geom α → Shape α) :
+    ∀ (recs : List (Geom α × List Val)) (acc : List (Shape α × List Bytes) × List WRes),
+      (∀ r ∈ recs, geom2Shp eq r.1 = .ok (S r.1)) →
+      (recs.foldl (fun acc r => let x := encodeF eq fields acc.1 r.1 r.2; (x.1, acc.2 ++ [x.2])) acc).1
+        = acc.1 ++ recs.map (fun r => (S r.1, writeLenient fields r.2)) := by
+  intro recs
+  induction recs with
+  | nil => intro acc _; simp
+  | cons r rs ih =>
+    intro acc h
+    have hr := h r (by simp)
+    rw [List.foldl_cons, ih _ (fun r' hr' => h r' (by simp [hr']))]
+    simp [encodeF, hr]
+
+/-- the rows after a sequence of `Encode` calls (after fix d0dd046): one row per call, in call order,
+whether or not an attribute was refused -/
+theorem writeAllS_rows (eq : Pt α → Pt α → Bool) (e : EncS) (S : Geom α → Shape α) :
+    ∀ (recs : List (Geom α × List Val)) (acc : List (Shape α × List Bytes) × List WRes),
+      (∀ r ∈ recs, fieldShape eq e.geomKind r.1 = .ok (S r.1)) →
+      (recs.foldl (fun acc r => let x := encodeS eq e acc.1 r.1 r.2; (x.1, acc.2 ++ [x.2])) acc).1
+        = acc.1 ++ recs.map (fun r => (S r.1, (writeStrict e.fields r.2).1)) := by
+  intro recs
+  induction recs with
+  | nil => intro acc _; simp
+  | cons r rs ih =>
+    intro acc h
+    have hr := h r (by simp)
+    rw [List.foldl_cons, ih _ (fun r' hr' => h r' (by simp [hr']))]
+    simp [encodeS, hr]
+
+theorem rowFields_ok (keys : List Bytes) (cells : List Bytes) : ∀ (names : List Bytes),
+    (∀ n ∈ names, ∃ j, lastIdx keys (lower n) = some j ∧ j < cells.length) →
+    ∃ vs : List (RVal α), rowFields keys cells names = .ok (vs, false) := by
+  intro names
+  induction names with
+  | nil => intro _; exact ⟨[], rfl⟩
+  | cons n ns ih =>
+    intro h
+    obtain ⟨j, hj, hlt⟩ := h n (by simp)
+    obtain ⟨vs, hvs⟩ := ih (fun n' hn' => h n' (by simp [hn']))
+    refine ⟨.str (strOf cells[j]) :: vs, ?_⟩
+    simp [rowFields, hj, List.getElem?_eq_getElem hlt, hvs]
+
+/-- `DecodeRowFields` over a whole file: every row is returned, in file order, when each shape converts
+and each requested name is a column -/
+theorem readF_rows (keys names : List Bytes) (G : Shape α → Geom α) :
+    ∀ (rows : List (Shape α × List Bytes)),
+      (∀ r ∈ rows, shp2Geom r.1 = .ok (G r.1) ∧ ∃ vs : List (RVal α), rowFields keys r.2 names = .ok (vs, false)) →
+      (readF.go names keys rows).panicked = false ∧ (readF.go names keys rows).err = false ∧
+      (readF.go names keys rows).rows.map List.head? = rows.map (fun r => some (RVal.geom (G r.1))) := by
+  intro rows
+  induction rows with
+  | nil => intro _; simp [readF.go]
+  | cons r rs ih =>
+    intro h
+    obtain ⟨hg, vs, hvs⟩ := h r (by simp)
+    have := ih (fun r' hr' => h r' (by simp [hr']))
+    obtain ⟨sh, cells⟩ := r
+    simp only at hg hvs
+    simp [readF.go, hg, hvs, this]
+
+/-- **C16_order** (clause "come back in the same order and number", field-based path; the geometry of
+row `i` is `Spec.normal` of the `i`-th written geometry): `n` records written with `EncodeFields` are
+`n` rows of the file in call order, and `DecodeRowFields` returns `n` rows in that order with no panic
+and no error, provided every geometry is of a supported type and every requested name is a column.
+The file is the model's ordered row store (go-shp's byte layout: external contract). -/
+theorem C16_order (eq : Pt α → Pt α → Bool) (t : Nat) (fields : List Field) (names : List Bytes)
+    (recs : List (Geom α × List Val)) (N : Geom α → Geom α)
+    (hsup : ∀ r ∈ recs, Spec.normal eq r.1 = some (N r.1))
+    (hnames : ∀ n ∈ names, ∃ j, lastIdx (fileKeys fields) (lower n) = some j) :
+    let rd := readF ⟨t, fields, (writeAllF eq fields recs).1⟩ names
+    rd.panicked = false ∧ rd.err = false ∧ rd.rows.length = recs.length ∧
+    rd.rows.map List.head? = recs.map (fun r => some (RVal.geom (N r.1))) := by
+  -- every supported geometry converts to a shape that converts back to its normal form
+  have hconv : ∀ r ∈ recs, ∃ sh, geom2Shp eq r.1 = .ok sh ∧ shp2Geom sh = .ok (N r.1) := by
+    intro r hr
+    have := C16_geom eq r.1 (N r.1) (hsup r hr)
+    cases hg : geom2Shp eq r.1 with
+    | error f => simp [hg, bind, Except.bind] at this
+    | ok sh => exact ⟨sh, rfl, by simpa [hg, bind, Except.bind] using this⟩
+  -- choose the shape function
+  let S : Geom α → Shape α := fun g => match geom2Shp eq g with | .ok sh => sh | .error _ => .null
+  have hS : ∀ r ∈ recs, geom2Shp eq r.1 = .ok (S r.1) := by
+    intro r hr; obtain ⟨sh, h1, _⟩ := hconv r hr; simp [S, h1]
+  let G : Shape α → Geom α := fun sh => match shp2Geom sh with | .ok g => g | .error _ => .nil
+  have hrows := writeAllF_rows eq fields S recs ([], []) hS
+  simp only [List.nil_append] at hrows
+  have hread := readF_rows (fileKeys fields) names G (recs.map (fun r => (S r.1, writeLenient fields r.2))) (by
+    intro r hr
+    obtain ⟨r0, hr0, rfl⟩ := List.mem_map.mp hr
+    obtain ⟨sh, h1, h2⟩ := hconv r0 hr0
+    have hs : S r0.1 = sh := by simp [S, h1]
+    refine ⟨by simp [G, hs, h2], ?_⟩
+    apply rowFields_ok
+    intro n hn
+    obtain ⟨j, hj⟩ := hnames n hn
+    refine ⟨j, hj, ?_⟩
+    have hl := ((lastIdx_spec _ _ _).mp hj).1
+    have : j < (fileKeys fields).length := by
+      rcases Nat.lt_or_ge j (fileKeys fields).length with h | h
+      · exact h
+      · simp [List.getElem?_eq_none h] at hl
+    simp only [writeLenient_length]
+    simpa [fileKeys] using this)
+  have hG : ∀ r ∈ recs, G (S r.1) = N r.1 := by
+    intro r hr; obtain ⟨sh, h1, h2⟩ := hconv r hr
+    simp [G, S, h1, h2]
+  simp only [readF, writeAllF, hrows]
+  refine ⟨hread.1, hread.2.1, ?_, ?_⟩
+  · have := congrArg List.length hread.2.2
+    simpa using this
+  · rw [hread.2.2, List.map_map]
+    apply List.map_congr_left
+    intro r hr
+    simp [hG r hr]
+
+/-- **C16_order_encode** (same clause, struct-based writer): `n` calls of `Encode` give `n` rows in call
+order — also when an attribute is refused (the row then keeps blank cells; before fix d0dd046 the
+attribute bytes of such a call were written without a row) -/
+theorem C16_order_encode (eq : Pt α → Pt α → Bool) (e : EncS) (recs : List (Geom α × List Val)) (S : Geom α → Shape α)
+    (h : ∀ r ∈ recs, fieldShape eq e.geomKind r.1 = .ok (S r.1)) :
+    (writeAllS eq e recs).1 = recs.map (fun r => (S r.1, (writeStrict e.fields r.2).1)) := by
+  have := writeAllS_rows eq e S recs ([], []) h
+  simpa [writeAllS] using this
+
+end order
+
 end GeomV.C16
